@@ -163,6 +163,15 @@ def run_world(repo: Repo, ilabel: str, data: bytes, threshold: str, arming: str,
                 return []  # the hook has no threshold parameter: it uses the loader's default
             oe.module_global(repo.modules["fickling.hook"], "run_hook")()
             result = oe.module_state[("pickle", "load")](stream)
+        elif arming == "global hook, after a permissive safety context was entered and left":
+            if threshold != "LIKELY_SAFE":
+                return []
+            # two armings in a row: what the second one accepted must not outlive it
+            oe.module_global(repo.modules["fickling.hook"], "run_hook")()
+            inner = oe.ref(repo.cls("fickling.context.FicklingContextManager"))(max_acceptable_severity=w.severity("OVERTLY_MALICIOUS"))
+            inner.sa_attr("__enter__")()
+            inner.sa_attr("__exit__")(None, None, None)
+            result = oe.module_state[("pickle", "load")](stream)
         else:
             if threshold != "LIKELY_SAFE":
                 return []
@@ -224,10 +233,12 @@ def explore(repo: Repo, tier: str):
     _LREPO = repo
     items = []
     for il, data in _inputs():
-        for arming in ("checked loader", "global hook", "safety context"):
+        for arming in ("checked loader", "global hook", "safety context", "global hook, after a permissive safety context was entered and left"):
             for th in SEVS:
                 for sk in ("in-memory", "file-like", "changing"):
                     if arming != "checked loader" and th != "LIKELY_SAFE":
+                        continue
+                    if arming.startswith("global hook, after") and sk != "in-memory":
                         continue
                     if tier != "thorough" and sk == "file-like" and th not in ("LIKELY_SAFE", "OVERTLY_MALICIOUS"):
                         continue
